@@ -649,6 +649,82 @@ def ifcportlist_stream(sh, backend, n, mech_fn):
     else: sh.count("ifc_port_list_designs_cosimulated"); sh.count("ifcportlist:" + how)
 
 
+def gen_childportlist_design(rng):
+  """a LIST of children whose ports are lists (1-D or 2-D); the parent's connections address child-list element, port-list element
+  and then a part select / bit select on top: every child and every port computes something else, so that an index that lands in
+  the wrong bracket shows"""
+  nc = rng.randrange(2, 4); np_ = rng.randrange(2, 4); two_d = rng.random() < 0.35
+  L = ["from pymtl3 import *", "class CPLeaf(Component):", "  def construct(s):"]
+  if two_d:
+    L.append(f"    s.in_ = [[InPort(8) for _ in range(2)] for _ in range({np_})]; s.out = [[OutPort(8) for _ in range(2)] for _ in range({np_})]")
+    L += ["    @update", "    def up():"] + [f"      s.out[{j}][{k}] @= s.in_[{j}][{k}] ^ {(17 * j + 5 * k + 3) & 255}" for j in range(np_) for k in range(2)]
+  else:
+    L.append(f"    s.in_ = [InPort(8) for _ in range({np_})]; s.out = [OutPort(8) for _ in range({np_})]")
+    L += ["    @update", "    def up():"] + [f"      s.out[{j}] @= s.in_[{j}] ^ {(17 * j + 3) & 255}" for j in range(np_)]
+  L += ["class CPTop(Component):", "  def construct(s):", f"    s.a = InPort(8); s.b = InPort(8); s.sub = [CPLeaf() for _ in range({nc})]"]
+  conns = []; outs = []
+  ports = [(c, j, k) for c in range(nc) for j in range(np_) for k in (range(2) if two_d else [None])]
+  for c, j, k in ports:
+    ref = f"s.sub[{c}].in_[{j}]" + (f"[{k}]" if k is not None else "")
+    src_ = rng.choice(["s.a", "s.b"])
+    h = rng.choice(["whole", "halves", "halves", "bits"])
+    if h == "whole": conns.append(f"    {ref} //= {src_}")
+    elif h == "halves":
+      cut = rng.randrange(1, 8)
+      conns += [f"    {ref}[0:{cut}] //= {src_}[0:{cut}]", f"    {ref}[{cut}:8] //= s.a[{cut}:8]"]
+    else:
+      conns += [f"    {ref}[0:7] //= {src_}[1:8]", f"    {ref}[7] //= s.b[{(c + j) % 8}]"]
+  for n_, (c, j, k) in enumerate(rng.sample(ports, min(len(ports), rng.randrange(2, 6)))):
+    ref = f"s.sub[{c}].out[{j}]" + (f"[{k}]" if k is not None else "")
+    h = rng.choice(["whole", "slice", "slice", "bit"])
+    if h == "whole": outs.append((n_, 8, ref))
+    elif h == "slice":
+      lo = rng.randrange(0, 7); hi = rng.randrange(lo + 1, 9); outs.append((n_, hi - lo, f"{ref}[{lo}:{hi}]"))
+    else: outs.append((n_, 1, f"{ref}[{rng.randrange(8)}]"))
+  for n_, w, ref in outs: L.append(f"    s.o{n_} = OutPort({w})")
+  body = conns + [f"    s.o{n_} //= {ref}" for n_, w, ref in outs]
+  rng.shuffle(body)
+  return "\n".join(L + body) + "\n", ("2d" if two_d else "1d")
+
+
+def childportlist_stream(sh, backend, n, mech_fn):
+  for case in range(n):
+    rng = sh.rng("childportlist", case)
+    src, how = gen_childportlist_design(rng)
+    before = sh.counters.get("rejected_by_translator", 0)
+    directed(sh, backend, f"childportlist-{case}", src, "CPTop", mech_fn)
+    if sh.counters.get("rejected_by_translator", 0) > before: sh.count("child_port_list_designs_refused")
+    else: sh.count("child_port_list_designs_cosimulated"); sh.count("childportlist:" + how)
+
+
+def gen_conststructconn_design(rng):
+  """an output port of struct type tied to a CONSTANT struct value by a connection - the struct has a list field whose elements
+  are structs, a list of vectors, a nested struct - among other plain connections before and after it"""
+  n = rng.randrange(2, 4)
+  shape = rng.choice(["list-of-struct", "list-of-struct", "list-of-bits", "nested"])
+  L = ["from pymtl3 import *", "@bitstruct", "class CCPt:", "  x: Bits4", "  y: Bits4", "@bitstruct", "class CCMsg:", "  tag: Bits8"]
+  if shape == "list-of-struct": L.append(f"  pts: [CCPt] * {n}"); val = "CCMsg({t}, [" + ", ".join("CCPt({}, {})".format(rng.getrandbits(4), rng.getrandbits(4)) for _ in range(n)) + "])"
+  elif shape == "list-of-bits": L.append(f"  pts: [Bits4] * {n}"); val = "CCMsg({t}, [" + ", ".join(f"Bits4({rng.getrandbits(4)})" for _ in range(n)) + "])"
+  else: L.append("  pts: CCPt"); val = "CCMsg({t}, CCPt(" + f"{rng.getrandbits(4)}, {rng.getrandbits(4)}" + "))"
+  val = val.format(t=rng.getrandbits(8))
+  L += ["class CCTop(Component):", "  def construct(s):", "    s.in1 = InPort(8); s.in2 = InPort(8); s.in3 = InPort(4)",
+        "    s.out = OutPort(CCMsg); s.out1 = OutPort(8); s.out2 = OutPort(8); s.out3 = OutPort(4)"]
+  body = [f"    s.out //= {val}", "    s.out1 //= s.in1", "    s.out2 //= s.in2", "    s.out3 //= s.in3"]
+  if rng.random() < 0.5: body = body[1:2] + body[0:1] + body[2:]
+  if rng.random() < 0.3: rng.shuffle(body)
+  return "\n".join(L + body) + "\n", shape
+
+
+def conststructconn_stream(sh, backend, n, mech_fn):
+  for case in range(n):
+    rng = sh.rng("conststructconn", case)
+    src, how = gen_conststructconn_design(rng)
+    before = sh.counters.get("rejected_by_translator", 0)
+    directed(sh, backend, f"conststructconn-{case}", src, "CCTop", mech_fn)
+    if sh.counters.get("rejected_by_translator", 0) > before: sh.count("const_struct_connection_designs_refused")
+    else: sh.count("const_struct_connection_designs_cosimulated"); sh.count("conststructconn:" + how)
+
+
 def localname_stream(sh, backend, n, mech_fn):
   for case in range(n):
     rng = sh.rng("localname", case)
